@@ -290,6 +290,99 @@ def transition_sides(fi, test, old, new):
     return out
 
 
+def transition_effects(fi, old_state, new_state, accumulating):
+    """Calls that `set_conveyor_state` makes for ONE representative transition (abstract run over the statement tree; nothing is executed):
+    `self.state` starts as `old_state`, the parameter is `new_state`, `self.accumulating` is the given flag.  Tests that can be evaluated choose their
+    branch - whatever their spelling, branch order or nesting; for a test that cannot, only the calls made on *both* branches count (must).
+    -> (set of callee texts, final value of self.state or None)"""
+    from .common import eval_guard, eval_guard_value, NotEvaluable
+    params = [a.arg for a in fi.node.args.args if a.arg != 'self']
+    env = {'self.state': old_state, 'self.accumulating': accumulating}
+    if params:
+        env[params[0]] = new_state
+
+    def bind(t):
+        if t in env:
+            return env[t]
+        raise KeyError(t)
+
+    def walk(stmts):
+        calls = set()
+        for st in stmts:
+            if isinstance(st, ast.If):
+                try:
+                    taken = st.body if eval_guard(st.test, bind) else st.orelse
+                    calls |= walk(taken)
+                except NotEvaluable:
+                    saved = dict(env)
+                    a = walk(st.body)
+                    env_a = dict(env)
+                    env.clear(); env.update(saved)
+                    b = walk(st.orelse)
+                    for k in list(env):
+                        if env_a.get(k, object()) != env[k]:
+                            del env[k]
+                    calls |= (a & b)
+            elif isinstance(st, ast.Assign):
+                try:
+                    v = eval_guard_value(st.value, bind)
+                    for t in st.targets:
+                        env[ast.unparse(t)] = v
+                except NotEvaluable:
+                    for t in st.targets:
+                        env.pop(ast.unparse(t), None)
+            elif isinstance(st, ast.Expr) and isinstance(st.value, ast.Call):
+                calls.add(ast.unparse(st.value.func))
+            elif isinstance(st, (ast.For, ast.While, ast.With, ast.Try)):
+                pass        # nothing of the transition logic lives in loops; calls made there are not counted as unconditional
+            elif isinstance(st, ast.Return):
+                break
+        return calls
+    calls = walk(fi.node.body)
+    return calls, env.get('self.state')
+
+
+def dispatch_states(stmts, env, stop_at_yield):
+    """states handed to set_conveyor_state when the statements run under the representative situation `env` (expression text -> value): tests that can be
+    evaluated choose their branch, others contribute both branches; with stop_at_yield the walk ends at the first suspension point"""
+    from .common import eval_guard, NotEvaluable
+
+    def bind(t):
+        if t in env:
+            return env[t]
+        raise KeyError(t)
+    got = set()
+
+    def walk(body):
+        """True when the walk has to stop (a suspension point was reached on this path)"""
+        for st in body:
+            if isinstance(st, ast.If):
+                try:
+                    if walk(st.body if eval_guard(st.test, bind) else st.orelse):
+                        return True
+                except NotEvaluable:
+                    a_ = walk(st.body)
+                    b_ = walk(st.orelse)
+                    if a_ and b_:
+                        return True
+                continue
+            if stop_at_yield and any(isinstance(x, (ast.Yield, ast.YieldFrom)) for x in ast.walk(st)):
+                return True
+            if isinstance(st, (ast.For, ast.While, ast.With, ast.Try)):
+                for f in ('body', 'orelse', 'finalbody'):
+                    if walk(getattr(st, f, []) or []):
+                        return True
+                continue
+            if isinstance(st, ast.Raise):
+                return True
+            for c_ in ast.walk(st):
+                if isinstance(c_, ast.Call) and ast.unparse(c_.func) == 'self.set_conveyor_state':
+                    got.update(names_in(c_))
+        return False
+    walk(stmts)
+    return got
+
+
 def check_transitions(p, r):
     for ci in tables.edge_classes(p):
         if ci.name != 'ConveyorBelt':
@@ -301,24 +394,24 @@ def check_transitions(p, r):
             continue
         r.analysed_functions.add(fi.key)
         why = None
-        old, new_ = transition_roles(fi)
-        found_int = found_res = False
-        for n in walk_no_nested(fi.node):
-            if not isinstance(n, ast.If):
-                continue
-            sides = transition_sides(fi, n.test, old, new_)
-            body_calls = {ast.unparse(c_.func) for x in n.body for c_ in ast.walk(x) if isinstance(c_, ast.Call)}
-            if sides.get('old') == MOVING and sides.get('new') == STALLED:
-                found_int = found_int or 'self.belt.selective_interrupt' in body_calls
-            if sides.get('old') == STALLED and sides.get('new') == MOVING:
-                found_res = found_res or 'self.belt.resume_all_move_processes' in body_calls
-        if not found_int:
-            why = 'the transition {MOVING, IDLE} → {STALLED_*} does not call belt.selective_interrupt: items keep moving on a stalled belt'
-        elif not found_res:
-            why = 'the transition {STALLED_*} → {MOVING, IDLE} does not call belt.resume_all_move_processes: items never resume'
-        # state assigned from the parameter
-        if not any(isinstance(n, ast.Assign) and ast.unparse(n).replace(' ', '') == f'self.state={new_}' for n in walk_no_nested(fi.node)):
-            why = why or 'set_conveyor_state does not record the new state'
+        attr_, _sk = tables.edge_store_attr(p, ci)
+        for acc in (0, 1):
+            for o_ in sorted(MOVING):
+                for n_ in sorted(STALLED):
+                    calls, final = transition_effects(fi, o_, n_, acc)
+                    if f'self.{attr_}.selective_interrupt' not in calls:
+                        why = why or (f'the transition {o_} → {n_} ({"accumulating" if acc else "non-accumulating"} belt) does not call {attr_}.selective_interrupt: '
+                                      f'items keep moving on a stalled belt')
+                    if final != n_:
+                        why = why or 'set_conveyor_state does not record the new state'
+            for o_ in sorted(STALLED):
+                for n_ in sorted(MOVING):
+                    calls, final = transition_effects(fi, o_, n_, acc)
+                    if f'self.{attr_}.resume_all_move_processes' not in calls:
+                        why = why or (f'the transition {o_} → {n_} ({"accumulating" if acc else "non-accumulating"} belt) does not call {attr_}.resume_all_move_processes: '
+                                      f'items never resume')
+                    if final != n_:
+                        why = why or 'set_conveyor_state does not record the new state'
         (r.ok if not why else r.fail)('C13.R3', key, 'interrupt on stall, resume on release, for both stall states' if not why else why, src(fi.module), fi.node.lineno)
         # single writer
         key2 = f'{ci.label}::state-single-writer'
@@ -340,101 +433,29 @@ def check_transitions(p, r):
             continue
         r.analysed_functions.add(b.key)
         loops = [n for n in b.node.body if isinstance(n, ast.While)]
-        chain = None
-        for n in (loops[0].body if loops else []):
-            if isinstance(n, ast.If) and 'is_empty' in ast.unparse(n.test):
-                chain = n
         why = None
-        if chain is None:
-            why = 'no dispatch on is_empty() in the behaviour loop'
+        if not loops:
+            why = 'no process loop in behaviour'
         else:
-            branches = []
-            cur = chain
-            while cur is not None:
-                branches.append((cur.test, cur.body))
-                if len(cur.orelse) == 1 and isinstance(cur.orelse[0], ast.If):
-                    cur = cur.orelse[0]
-                else:
-                    if cur.orelse:
-                        branches.append((None, cur.orelse))
-                    cur = None
-
-            def ev_(t, E, S):
-                if t is None:
-                    return True
-                if isinstance(t, ast.BoolOp):
-                    vs = [ev_(v, E, S) for v in t.values]
-                    return all(vs) if isinstance(t.op, ast.And) else any(vs)
-                if isinstance(t, ast.UnaryOp) and isinstance(t.op, ast.Not):
-                    return not ev_(t.operand, E, S)
-                if isinstance(t, ast.Call) and not t.args:
-                    nm = ast.unparse(t.func)
-                    if nm == 'self.is_empty':
-                        return E
-                    if nm == 'self.is_stalled':
-                        return S
-                raise ValueError(ast.unparse(t))
-            want = {(True, False): {'IDLE_STATE'}, (True, True): {'IDLE_STATE'}, (False, False): {'MOVING_STATE'}, (False, True): STALLED}
-
-            def states_set(stmts, acc):
-                """states passed to set_conveyor_state by the statements, following nested ifs on the accumulation flag for acc in (True, False, None=both)"""
-                got = set()
-                for x in stmts:
-                    if isinstance(x, ast.If) and acc is not None:
-                        t_ = ast.unparse(x.test).replace(' ', '')
-                        val = None
-                        if t_ in ('self.accumulating', 'self.accumulating==1', 'self.accumulating==True', 'self.accumulating!=0'):
-                            val = acc
-                        elif t_ in ('notself.accumulating', 'self.accumulating==0', 'self.accumulating==False', 'self.accumulating!=1'):
-                            val = not acc
-                        if val is not None:
-                            got |= states_set(x.body if val else x.orelse, acc)
-                            continue
-                    for c_ in ast.walk(x):
-                        if isinstance(c_, ast.Call) and ast.unparse(c_.func) == 'self.set_conveyor_state':
-                            got |= names_in(c_)
-                return got
-            try:
-                for (E, S), w in want.items():
-                    taken = next((body for t, body in branches if ev_(t, E, S)), None)
-                    got = states_set(taken or [], None)
-                    if got != w and not (E and got == set() and False):
+            body = loops[0].body
+            want = {(True, False): {'IDLE_STATE'}, (True, True): {'IDLE_STATE'}, (False, False): {'MOVING_STATE'}}
+            # the decision taken at the top of an iteration (up to the first suspension), by abstract evaluation over (empty, stalled, accumulating)
+            for (E, S), w in want.items():
+                for acc in (0, 1):
+                    got = dispatch_states(body, {'self.is_empty()': E, 'self.is_stalled()': S, 'self.accumulating': acc}, stop_at_yield=True)
+                    if got != w:
                         why = why or (f'when the belt is {"empty" if E else "not empty"} and {"stalled" if S else "not stalled"} the behaviour sets '
                                       f'{sorted(got) or "no state"}, expected {sorted(w)}')
-                    if (E, S) == (False, True) and not why:
-                        for acc, wst in ((True, {'STALLED_ACCUMULATING_STATE'}), (False, {'STALLED_NONACCUMULATING_STATE'})):
-                            g2 = states_set(taken or [], acc)
-                            if g2 != wst:
-                                why = (f'a stalled {"accumulating" if acc else "non-accumulating"} belt is put into {sorted(g2) or "no state"}, expected {sorted(wst)}: '
-                                       f'items {"stop instead of closing up" if acc else "close up instead of stopping"}')
-            except ValueError as e_:
-                why = f'the state dispatch tests `{e_}`, which is not a combination of is_empty() / is_stalled()'
-        # every decision on the accumulating flag inside behaviour picks the matching stall state (there may be several such sites)
-        if not why:
-            for n_ in walk_no_nested(b.node):
-                if not isinstance(n_, ast.If):
-                    continue
-                t_ = ast.unparse(n_.test).replace(' ', '')
-                pol = None
-                if t_ in ('self.accumulating', 'self.accumulating==1', 'self.accumulating==True', 'self.accumulating!=0'):
-                    pol = True
-                elif t_ in ('notself.accumulating', 'self.accumulating==0', 'self.accumulating==False', 'self.accumulating!=1'):
-                    pol = False
-                if pol is None:
-                    continue
-                for branch, acc in ((n_.body, pol), (n_.orelse, not pol)):
-                    got = set()
-                    for x in branch:
-                        if isinstance(x, ast.If):
-                            continue
-                        for c_ in ast.walk(x):
-                            if isinstance(c_, ast.Call) and ast.unparse(c_.func) == 'self.set_conveyor_state':
-                                got |= names_in(c_)
-                    got &= STALLED
-                    wst = {'STALLED_ACCUMULATING_STATE'} if acc else {'STALLED_NONACCUMULATING_STATE'}
-                    if got and got != wst:
-                        why = (f'a stalled {"accumulating" if acc else "non-accumulating"} belt is put into {sorted(got)} (line {n_.lineno}), expected {sorted(wst)}: '
-                               f'items {"stop instead of closing up" if acc else "close up instead of stopping"}')
+            for acc, wst in ((1, {'STALLED_ACCUMULATING_STATE'}), (0, {'STALLED_NONACCUMULATING_STATE'})):
+                got = dispatch_states(body, {'self.is_empty()': False, 'self.is_stalled()': True, 'self.accumulating': acc}, stop_at_yield=True)
+                if got != wst:
+                    why = why or (f'a stalled {"accumulating" if acc else "non-accumulating"} belt is put into {sorted(got) or "no state"}, expected {sorted(wst)}: '
+                                  f'items {"stop instead of closing up" if acc else "close up instead of stopping"}')
+                # ... and every later decision of the iteration (after a wake-up) that stalls the belt picks the kind that matches the flag
+                later = dispatch_states(body, {'self.is_stalled()': True, 'self.accumulating': acc}, stop_at_yield=False) & STALLED
+                if later - wst:
+                    why = why or (f'a stalled {"accumulating" if acc else "non-accumulating"} belt is put into {sorted(later - wst)} somewhere in the behaviour loop, '
+                                  f'expected {sorted(wst)}: items {"stop instead of closing up" if acc else "close up instead of stopping"}')
         (r.ok if not why else r.fail)('C13.R3', key3, 'empty → IDLE, moving → MOVING, stalled → STALLED_(NON)ACCUMULATING' if not why else why, src(b.module), b.node.lineno)
 
 
@@ -567,28 +588,26 @@ def check_delayed_interrupts(p, r):
         if fi is None:
             continue
         key = f'{fi.key}::release-cancels-delayed-interrupts'
-        rel = None
-        old, new_ = transition_roles(fi)
-        for n in walk_no_nested(fi.node):
-            if isinstance(n, ast.If):
-                sides = transition_sides(fi, n.test, old, new_)
-                if sides.get('old') == STALLED and sides.get('new') == MOVING:
-                    rel = n
-        if rel is None:
-            r.fail('C13.R6', key, 'no STALLED → MOVING branch in set_conveyor_state', src(fi.module), fi.node.lineno)
-            continue
-        top = [ast.unparse(x.value.func) for x in rel.body if isinstance(x, ast.Expr) and isinstance(x.value, ast.Call)]
-        nested = [ast.unparse(c.func) for x in rel.body if not isinstance(x, ast.Expr) for c in ast.walk(x) if isinstance(c, ast.Call)]
         name = f'self.{attr}.interrupt_and_resume_all_delayed_interrupt_processes'
-        if name in top:
-            r.ok('C13.R6', key, 'cancelled unconditionally on release', src(fi.module), rel.lineno)
-        elif name in nested:
-            r.fail('C13.R6', key, 'pending delayed interrupts are cancelled only under a condition when the belt is released, but they are also scheduled when '
-                                  'that condition is false (handle_new_item_during_interruption runs for both belt kinds): a stale interrupt freezes an item '
-                                  'after the release', src(fi.module), rel.lineno)
+        missing = []
+        mentioned = any(isinstance(c, ast.Call) and ast.unparse(c.func) == name for c in ast.walk(fi.node))
+        for acc in (0, 1):
+            for o_ in sorted(STALLED):
+                for n_ in sorted(MOVING):
+                    calls, _final = transition_effects(fi, o_, n_, acc)
+                    if name not in calls:
+                        missing.append((o_, n_, acc))
+        if not missing:
+            r.ok('C13.R6', key, 'cancelled on every release transition, for both belt kinds', src(fi.module), fi.node.lineno)
+        elif mentioned and len(missing) < 8:
+            o_, n_, acc = missing[0]
+            r.fail('C13.R6', key, f'pending delayed interrupts are cancelled only under a condition when the belt is released (not for {o_} → {n_} on '
+                                  f'{"an accumulating" if acc else "a non-accumulating"} belt), but they are also scheduled when that condition is false '
+                                  '(handle_new_item_during_interruption runs for both belt kinds): a stale interrupt freezes an item after the release',
+                   src(fi.module), fi.node.lineno)
         else:
             r.fail('C13.R6', key, 'the release transition does not cancel the delayed interrupts scheduled during the stall: they fire after the release and '
-                                  'freeze items on a moving belt', src(fi.module), rel.lineno)
+                                  'freeze items on a moving belt', src(fi.module), fi.node.lineno)
 
 
 # ------------------------------------------------------------------------------------------- R7
